@@ -187,7 +187,7 @@ def batch_diff(rp, sess, label, schema, marker):
     return inside_alloc, None
 
 
-def agent_side(rp, lc, sess, row, nodes, scratch, smt_env=0):
+def agent_side(rp, lc, sess, row, nodes, scratch, smt_env=0, backup=0):
     """a pilot of `nodes` whole nodes on the platform of `row`: the figures of the job (real _prepare_pilot) against what
     the agent's resource manager makes of the configuration it is handed (real ResourceManager._init_from_scratch of the
     platform's resource manager, in an allocation of exactly the nodes the job asked for).  Returns (job, agent) or None
@@ -198,15 +198,17 @@ def agent_side(rp, lc, sess, row, nodes, scratch, smt_env=0):
         return None
     # (smt_env: the application overrides the platform's hardware-thread level with $RADICAL_SMT; the job is sized with it
     #  and its environment carries it to the agent)
-    res = size_real(rp, lc, sess, row['label'], row['schema'], {'nodes': nodes}, smt_env)
+    res = size_real(rp, lc, sess, row['label'], row['schema'], {'nodes': nodes, 'backup_nodes': backup} if backup else {'nodes': nodes}, smt_env)
     if not isinstance(res, dict):
         return None
-    hosts = [0, 1, 6, 7][:nodes]                       # node001, node002, node010, gpu-a of c18.HOSTS
+    # (with backup nodes the job - and the allocation - has them on top; the agent uses the nodes it was told and keeps
+    #  the others in reserve)
+    hosts = [0, 1, 6, 7][:nodes + backup]                       # node001, node002, node010, gpu-a of c18.HOSTS
     # (an LSF host file names a host once per physical core; the other node files once per node)
     per   = max(1, res['cores_per_node'] // max(1, smt_env or row['smt'])) if kind == 'lsf' else 1
     case = {'op': 'init', 'kind': kind, 'exec_vnode': None, 'stale': None,
             'cfg': {'cpn': res['cores_per_node'], 'gpn': res['gpus_per_node'], 'smt': row['smt'], 'nodes': res['nodes'],
-                    'cores': res['cores'], 'gpus': res['gpus'], 'backup': 0, 'blocked_cores': list(row['blockedCores']),
+                    'cores': res['cores'], 'gpus': res['gpus'], 'backup': res['backup_nodes'], 'blocked_cores': list(row['blockedCores']),
                     'blocked_gpus': list(row['blockedGpus']), 'agent_nodes': 0, 'service_nodes': 0, 'env_gpus': None, 'env_gpu_ids': 0},
             'lines': [{'id': h, 'login': False, 'batch': False} for h in hosts for _ in range(per)],
             'hosts': [{'id': h, 'login': False, 'batch': False} for h in hosts],
@@ -216,6 +218,8 @@ def agent_side(rp, lc, sess, row, nodes, scratch, smt_env=0):
         return res, {'error': err}
     usable = [sum(1 for c in n[2] if c == 0) for n in rm['node_list']]
     gpus   = [sum(1 for g in n[3] if g == 0) for n in rm['node_list']]
+    if backup:
+        return res, {'nodes': len(rm['node_list']), 'usable_cores_per_node': sorted(set(usable)), 'told_nodes': res['nodes'], 'backup': res['backup_nodes']}
     return res, {'nodes': len(rm['node_list']), 'usable_cores_per_node': sorted(set(usable)), 'usable_cores': sum(usable),
                  'usable_gpus': sum(gpus)}
 
@@ -223,6 +227,13 @@ def agent_side(rp, lc, sess, row, nodes, scratch, smt_env=0):
 def agent_side_monitor(job, agent):
     if 'error' in agent:
         return ('agent-resource-manager-refuses-the-configuration-of-the-job', agent['error'])
+    if 'told_nodes' in agent:
+        if agent['nodes'] != agent['told_nodes'] or agent['told_nodes'] + agent['backup'] != job['node_count'] \
+           or agent['usable_cores_per_node'] != [job['processes_per_host']]:
+            return ('agent-node-figures-differ-from-what-it-was-told',
+                    'the job asks for %d nodes (%d of them backup), the agent was told %d nodes and works with %d nodes of %s usable cores (the job says %d per host)'
+                    % (job['node_count'], agent['backup'], agent['told_nodes'], agent['nodes'], agent['usable_cores_per_node'], job['processes_per_host']))
+        return None
     want = {'nodes': job['node_count'], 'usable_cores_per_node': [job['processes_per_host']], 'usable_cores': job['total_cpu_count'],
             'usable_gpus': job['total_gpu_count']}
     if agent != want:
@@ -471,15 +482,15 @@ def run(ctx):
         seen_a.add((r['label'], r['schema']))
         # every platform that blocks something or has hardware threads, a fifth of the others
         if not (r['blockedCores'] or r['blockedGpus'] or r['smt'] > 1) and (len(seen_a) % 5): continue
-        for nodes, smt_env in ((1, 0), (2, 0)) + (((1, 2 if r['smt'] != 2 else 4),) if r['smt'] > 1 else ()):
-            ja = agent_side(rp, lc, sess, r, nodes, ctx.scratch, smt_env)
+        for nodes, smt_env, backup in ((1, 0, 0), (2, 0, 0), (2, 0, 1)) + (((1, 2 if r['smt'] != 2 else 4, 0),) if r['smt'] > 1 else ()):
+            ja = agent_side(rp, lc, sess, r, nodes, ctx.scratch, smt_env, backup)
             if ja is None: continue
             na += 1
-            ctx.case({'agent_side': [r['label'], r['schema'], nodes, smt_env]}, nontrivial=bool(r['blockedCores'] or r['blockedGpus'] or smt_env))
+            ctx.case({'agent_side': [r['label'], r['schema'], nodes, smt_env, backup]}, nontrivial=bool(r['blockedCores'] or r['blockedGpus'] or smt_env or backup))
             bad = agent_side_monitor(*ja)
             if bad:
-                ctx.fail(bad[0] + ':' + r['label'], bad[1] + (' ($RADICAL_SMT=%d)' % smt_env if smt_env else ''),
-                         {'kind': 'agent_side', 'label': r['label'], 'schema': r['schema'], 'nodes': nodes, 'smt_env': smt_env})
+                ctx.fail(bad[0] + (':' + r['label'] if not backup else ''), (r['label'] + ': ' if backup else '') + bad[1] + (' ($RADICAL_SMT=%d)' % smt_env if smt_env else ''),
+                         {'kind': 'agent_side', 'label': r['label'], 'schema': r['schema'], 'nodes': nodes, 'smt_env': smt_env, 'backup': backup})
     ctx.obligation('the agent\'s resource manager, run on the configuration _prepare_pilot hands it in an allocation of the nodes the job asks '
                    'for, offers the node count, usable cores per node, cores and GPUs of the job (%d pilots)' % na, 'tie', na > 0, '')
     ctx.sample({'op': ops[0], 'real_prepare_pilot': impl[0]}, limit=1)
@@ -509,7 +520,7 @@ def replay(ctx, data):
     if i['kind'] == 'agent_side':
         lc = make_launcher(rp, ctx.scratch)
         rows = [r for r in translate.resource_rows(common.SRC) if r['label'] == i['label'] and r['schema'] == i['schema']]
-        ja = agent_side(rp, lc, sess, rows[0], i['nodes'], ctx.scratch, i.get('smt_env', 0))
+        ja = agent_side(rp, lc, sess, rows[0], i['nodes'], ctx.scratch, i.get('smt_env', 0), i.get('backup', 0))
         bad = agent_side_monitor(*ja) if ja else None
         print(ja); print(bad)
         return not bad
